@@ -444,7 +444,7 @@ def wide_loop_cfgs(draw):
 
         def tree0(ts):
             if len(ts) == 1:
-                if draw(st.integers(0, 2)) == 0:
+                if draw(st.booleans()):
                     return ts[0]  # empty arm: the arc comes straight from the branching block
                 me = new()
                 raw[me] = [ts[0]]
@@ -459,7 +459,7 @@ def wide_loop_cfgs(draw):
         a, b = tree0(tg[:mid]), tree0(tg[mid:])
         raw[root] = [a, b] if a != b else [a]
         for i, t_ in enumerate(chain):
-            raw[t_] = [chain[i + 1]] if i + 1 < m else []
+            raw[t_] = ([chain[i + 1]] if draw(st.booleans()) else [chain[-1]]) if i + 1 < m else []  # on to the next tail block, or straight to the last
             if i + 2 < m and draw(st.integers(0, 3)) == 0:
                 raw[t_].append(chain[draw(st.integers(i + 2, m - 1))])
         return repair(nxt[0], raw)
